@@ -76,9 +76,14 @@ func (context *CHFContext) NewCHFUe(supi string) (*ChfUe, error) {
 	if strings.HasPrefix(supi, "imsi-") {
 		ue := ChfUe{}
 		ue.init()
+		ue.Supi = supi
 
-		if supi != "" {
-			context.AddChfUeToUePool(&ue, supi)
+		// Two first requests of one subscriber may arrive together: only one
+		// context may be published for a SUPI, and both must use that one
+		// (its lock, its sessions), otherwise the loser's sessions are lost.
+		actual, loaded := context.UePool.LoadOrStore(supi, &ue)
+		if loaded {
+			return actual.(*ChfUe), nil
 		}
 
 		return &ue, nil
